@@ -249,13 +249,15 @@ type hist = {
   mutable failed_apply : bool;        (* some apply failed / some device error was injected in this history *)
   mutable rollbacks : int;
   mutable crashes : int;
+  before_change : (int * int, (string * string) list * (string * bool) list) Hashtbl.t;
+  (* (target, index) -> what Get showed just before that change was merged, and the change's (path, deleted) list *)
 }
 let hists : (string, hist) Hashtbl.t = Hashtbl.create 64
 let hist_of id =
   let h = List.hd (String.split_on_char ':' id) in
   match Hashtbl.find_opt hists h with
   | Some x -> x
-  | None -> let x = { prev = None; kind = "atomic"; failed_apply = false; rollbacks = 0; crashes = 0 } in Hashtbl.replace hists h x; x
+  | None -> let x = { prev = None; kind = "atomic"; failed_apply = false; rollbacks = 0; crashes = 0; before_change = Hashtbl.create 8 } in Hashtbl.replace hists h x; x
 
 (* ------------------------------------------------------------------ monitors on one observed step *)
 let monitors id (label : sx) (pre : istate) (post : istate) (dl : (n * n * n * req * code) list) =
@@ -370,6 +372,42 @@ let monitors id (label : sx) (pre : istate) (post : istate) (dl : (n * n * n * r
       if List.for_all (fun (t', _, _, _, c') -> t' <> t || c' <> COk) dl && st d0 <> st d1 then
         specviol id "c11_refused_request_changed_device" (Printf.sprintf "target %s" (sn t))
     end) dl;
+  (* C06: a rollback is validated only against the latest change of the target, and its commit restores what Get
+     showed immediately before that change *)
+  (match actor with
+   | Some (ta, ia) ->
+     (match find_assoc (ta, ia) qprops, find_assoc (ta, ia) pprops, find_assoc ta qcfg, find_assoc ta pcfg with
+      | Some p0, Some p1, Some c0, Some c1 ->
+        (match p0.p_details with
+         | PChange ch when p0.p_commit = Some Doing && int_of_n c0.c_committed <> int_of_n c1.c_committed ->
+           Hashtbl.replace (hist_of id).before_change (ta, ia) (live_of c0, List.map (fun (_, v) -> (str_of v.pv_path, v.pv_deleted)) ch)
+         | PRollback ri ->
+           let ri = int_of_n ri in
+           if p0.p_validate = Some Doing && p1.p_validate = Some Done then begin
+             if int_of_n c0.c_index <> ri then
+               specviol id "c06_rollback_of_non_latest_accepted" (Printf.sprintf "rollback %d-%d of index %d validated while the latest change of the target is %s" ta ia ri (sn c0.c_index));
+             (match find_assoc (ta, ri) qprops with
+              | Some q -> (match q.p_details with PRollback _ -> specviol id "c06_rollback_of_rollback_accepted" (Printf.sprintf "%d-%d" ta ia) | _ -> ())
+              | None -> specviol id "c06_rollback_of_missing_accepted" (Printf.sprintf "%d-%d" ta ia))
+           end;
+           if p0.p_commit = Some Doing && int_of_n c0.c_committed <> int_of_n c1.c_committed then begin
+             match Hashtbl.find_opt (hist_of id).before_change (ta, ri) with
+             | Some (before, change) ->
+               let after = live_of c1 in
+               if before <> after then begin
+                 let missing = List.filter (fun x -> not (List.mem x after)) before and extra = List.filter (fun x -> not (List.mem x before)) after in
+                 (* F-13: children removed by a subtree delete of the change are not part of its rollback values *)
+                 let under_deleted (path, _) = List.exists (fun (d, del) -> del && is_path_below (bytes_of_string path) (bytes_of_string d)) change in
+                 let sigs = if extra = [] && missing <> [] && List.for_all under_deleted missing then "c06_subtree_children_not_restored" else "c06_rollback_not_restoring" in
+                 specviol id sigs (Printf.sprintf "target %d rollback of %d: before the change [%s], after the rollback [%s]" ta ri
+                                     (String.concat "," (List.map (fun (p, v) -> p ^ "=" ^ v) before)) (String.concat "," (List.map (fun (p, v) -> p ^ "=" ^ v) after)))
+               end;
+               if int_of_n c1.c_index >= ri then specviol id "c06_index_not_restored" (Printf.sprintf "target %d index %s after rolling back %d" ta (sn c1.c_index) ri)
+             | None -> ()
+           end
+         | _ -> ())
+      | _ -> ())
+   | None -> ());
   (* C05: a rejecting plugin or a missing plugin fails the proposal *)
   (match lst label with
    | [ A "rec"; A "prop"; t; i; A "all"; A v ] when v = "0" ->
